@@ -16,11 +16,12 @@ import (
 func EditChain(p *core.Prog, r *core.Report, cmds []string) {
 	info := p.Info(core.PkgMain)
 	for _, name := range cmds {
-		fd := p.FuncDecl(core.PkgMain, name)
+		fd := p.CommandFunc(name)
 		if fd == nil || fd.Body == nil {
-			r.Und("EDIT-CHAIN", "main."+name+"|anchor", "-", "anchor-unresolved")
+			r.Und("EDIT-CHAIN", "main."+name+"|anchor", "-", "anchor-unresolved: no function registered for the command `"+name+"`")
 			continue
 		}
+		name = fd.Name.Name
 		r.Fn("main." + name)
 		par := core.Parents(fd.Body)
 		asg := core.Assigns(info, fd.Body)
